@@ -405,6 +405,18 @@ def check(P, R):
     # all failure exits of the inner loop reach the pop
     pops = [c for c in walk_shallow(f.node) if isinstance(c, ast.Call) and call_attr(c) == 'pop' and dotted(c.func.value) == roles['look_back']]
     R.require(pops, 'RadiDict.get: look_back.pop not found')
+    for pc_ in pops:
+        # the alternatives saved last are the deepest ones: they are retried first (a stack), and the pushes append at the end
+        lifo = not pc_.args or (len(pc_.args) == 1 and isinstance(pc_.args[0], ast.UnaryOp) and isinstance(pc_.args[0].op, ast.USub) and is_const(pc_.args[0].operand, 1))
+        pushes_ = [c for c in walk_shallow(f.node) if isinstance(c, ast.Call) and dotted(c.func.value if isinstance(c.func, ast.Attribute) else c.func) == roles['look_back']
+                   and isinstance(c.func, ast.Attribute) and c.func.attr in ('append', 'insert', 'appendleft')]
+        at_end = all(c.func.attr == 'append' for c in pushes_)
+        okl = (lifo and at_end) or (not lifo and pushes_ and all(c.func.attr in ('insert', 'appendleft') and (c.func.attr == 'appendleft' or is_const(c.args[0], 0)) for c in pushes_)
+                                   and len(pc_.args) == 1 and is_const(pc_.args[0], 0))
+        R.ob('C01.c', f, pc_, bool(okl), text=f'`{short(pc_)}` retries the most recently saved alternative first', detail='' if okl else
+             f'`{short(pc_)}` does not take the alternative that was saved last: with two nested literal-vs-wildcard choices the shallow wildcard is retried before the deep '
+             f'one, so `/a/b/d` goes to `/:y/b/d` although `/a/:x/d` shares the longer literal prefix',
+             why='literal text wins over a wildcard at the first position where the candidates differ', key_extra='lifo')
     pop_test = enclosing(pops[0], ast.If)
     ptn = g.nodes_for(pop_test.test)[0]
     inner = [w for w in walk_shallow(f.node) if isinstance(w, ast.While) and w is not f.node and enclosing(w, ast.While) is not None]
@@ -513,6 +525,20 @@ def check(P, R):
             R.undecided('C01.f', mp, mp.node, 'make_params_dict', 'neither a dict comprehension nor a loop over zip(names, values)')
     R.ob('C01.f', mp, z[0] if z else mp.node, ok, text='{name: value for name, value in zip(names, values) if not anonymous}', detail='' if ok else
          'names and values are not zipped positionally (or anonymous wildcards are not dropped)')
+    # the prefix that marks anonymous wildcards cannot begin a wildcard *name* (names are identifiers): otherwise named wildcards are dropped as anonymous
+    rcls_ = P.cls(f'{RR}:Route')
+    apv = rcls_.attrs.get('anon_prefix')
+    try:
+        apx = T.ceval(rcls_, apv) if apv is not None else None
+    except T.CannotEval:
+        apx = None
+    if isinstance(apx, str):
+        clash = (apx + 'x').isidentifier() or apx == ''
+        R.ob('C01.f', rcls_.fq, None, not clash, text=f'anon_prefix = {apx!r} is not the beginning of any identifier', detail='' if not clash else
+             f'anon_prefix = {apx!r} can begin an ordinary wildcard name: every named wildcard starting with it (`<{apx}id:int>`) is taken for an anonymous one and dropped '
+             f'from the keyword arguments', why='the handler is called with exactly the named wildcards of the rule', key_extra='anon-prefix')
+    else:
+        R.undecided('C01.f', rcls_.fq, None, 'Route.anon_prefix', 'not a constant string')
     rs = P.func(f'{RR}:RadiRouter.resolve')
     calls = [c for c in walk_shallow(rs.node) if isinstance(c, ast.Call) and call_attr(c) == 'make_params_dict']
     gets = [st for st in walk_shallow(rs.node) if isinstance(st, ast.Assign) and isinstance(st.targets[0], ast.Tuple) and len(st.targets[0].elts) == 2
@@ -556,7 +582,13 @@ def check(P, R):
         det = ''
         finds = [x for x in jdefs if x.kind == 'assign' and isinstance(x.value, ast.Call) and call_attr(x.value) in ('find', 'index')]
         inits = [x for x in jdefs if x.kind == 'assign' and isinstance(x.value, ast.Name) and x.value.id == roles['cursor']]
-        if inits and any(x.kind == 'aug' and is_const(x.value, 1) for x in jdefs):
+        late = [x for x in jdefs if x.kind == 'assign' and isinstance(x.value, ast.BinOp) and isinstance(x.value.op, ast.Add) and isinstance(x.value.left, ast.Name)
+                and x.value.left.id == roles['cursor'] and isinstance(x.value.right, ast.Constant) and isinstance(x.value.right.value, int) and x.value.right.value >= 1]
+        if late and not inits:
+            form, ok = 'scan', False
+            det = (f'the scan for the end of the value starts at `{short(late[0].value)}`, behind the cursor: a separator exactly at the cursor (an empty segment, `/item//edit`) is '
+                   f'stepped over and the wildcard swallows the next segment - another rule is selected, or none')
+        elif inits and any(x.kind == 'aug' and is_const(x.value, 1) for x in jdefs):
             # scanning loop: while j < L: if route[j] == SEP: break; j += 1
             w = [n for n in walk_shallow(f.node) if isinstance(n, ast.While) and compare_parts(n.test) and src(compare_parts(n.test)[0]) == jn
                  and compare_parts(n.test)[1] is ast.Lt]
